@@ -707,7 +707,11 @@ def stable_text(v, top=True) -> str:
 # ---------------------------------------------------------------- special node models
 
 # the combined class must meet its first base already specialised: instantiate the bases at import
-MLeft(); MRight()
+for _b in (MLeft(), MRight()):
+    # ... in ALL generated accessors (the constructor itself only uses two of them)
+    list(_b.iter_child_fields()); list(_b.get_child_nodes()); list(_b.get_child_nodes_with_field()); list(_b.get_properties())
+    list(_b.iter_child_fields(sort_keys=True)); list(_b.get_child_nodes(sort_keys=True)); list(_b.get_properties(sort_keys=True))
+del _b
 
 
 def same_name_classes():
